@@ -14,7 +14,7 @@ import (
 
 // Prelude defines log() purely inside the JavaScript heap (host functions are shared between a
 // runtime and its copies by design and are therefore kept out of C17/C20).
-const Prelude = `var __builtins = Object.getOwnPropertyNames(this); var __trace = [];
+const Prelude = Helpers + `var __builtins = Object.getOwnPropertyNames(this); var __nativeFns = []; (function(g){ for (var i = 0; i < __builtins.length; i++) { var v = g[__builtins[i]]; if (typeof v === "function") __nativeFns.push(v); } })(this); var __trace = [];
 function log() { var a = []; for (var i = 0; i < arguments.length; i++) { var v = arguments[i]; a.push(typeof v === "object" || typeof v === "function" ? typeof v : String(v)); } __trace.push(a.join("|")); }
 `
 
@@ -48,7 +48,8 @@ const Dump = `(function (global) {
     }
     var names = gopn(o);
     for (var j = 0; j < names.length; j++) {
-      var n = names[j], d = gopd(o, n);
+      var n = names[j], d;
+      try { d = gopd(o, n); } catch (e) { line.push(JSON.stringify(n) + ":!" + e.name); continue; }
       if (!d) { line.push(JSON.stringify(n) + ":?"); continue; }
       var a = (d.enumerable ? "e" : "-") + (d.configurable ? "c" : "-");
       if (has.call(d, "value") || has.call(d, "writable")) line.push(JSON.stringify(n) + ":" + (d.writable ? "w" : "-") + a + "=" + val(d.value));
@@ -70,7 +71,7 @@ const Exercise = `(function (global) {
     var n = names[i], v;
     if (n === "log" || n.charAt(0) === "_" ) continue;
     try { v = global[n]; } catch (e) { r.push(n + " get!" + e.name); continue; }
-    if (typeof v !== "function" || __builtins.indexOf(n) >= 0) continue; // every function the history put there, bound ones included
+    if (typeof v !== "function" || __builtins.indexOf(n) >= 0 || __nativeFns.indexOf(v) >= 0) continue; // every function the history put there (bound ones included), but no built-in under another name (Date() reads the clock)
     try { var x = v(); r.push(n + "()=" + (typeof x === "object" || typeof x === "function" ? typeof x : String(x))); }
     catch (e) { r.push(n + "() threw " + (e && e.name)); }
   }
@@ -164,6 +165,41 @@ var Mutators = []string{
 	`try { Object.defineProperty(this, "definedGlobal", {value: 1, enumerable: false, configurable: true}); Object.defineProperty(Array.prototype, "hiddenExtra", {value: 2}) } catch (e) {}`,
 	`try { log("mutator ran", typeof counter) } catch (e) {}`,
 	`try { bound.extra = 1; three.prototype.mark = 1; Function.prototype.fpExtra = function(){ return 1 } } catch (e) {}`,
+}
+
+// Targeted triples: a setup, a program for the copy and a program for the original chosen so that storage
+// shared between the clones (or a clone path that loses something) shows up on one of the sides.
+type Triple struct{ Setup, OnCopy, OnOrig string }
+
+var Targeted = []Triple{
+	// arguments objects: parameter mapping shared between the clones
+	{`var amap = (function(p, q){ var args = arguments; return { del: function(i){ return delete args[i] }, set: function(i, v){ args[i] = v }, setP: function(v){ p = v }, get: function(){ return p + ":" + q + ":" + args[0] + ":" + args[1] + ":" + args.length } } })(1, 2); var amapGet = amap.get;`,
+		`amap.del(0); amap.set(1, "c"); amap.get()`, `amap.setP("o"); amap.set(0, "z"); amap.get()`},
+	{`var amap2 = (function(p){ var args = arguments; return { del: function(){ return delete args[0] }, setP: function(v){ p = v; return args[0] }, get: function(){ return p + ":" + args[0] } } })(5); var amap2Get = amap2.get;`,
+		`amap2.setP("c")`, `amap2.del(); amap2.setP("o")`},
+	// accessor halves: setter only, getter only, both, redefinition on one side
+	{`var halves = {}; Object.defineProperty(halves, "w", {set: function(v){ this._w = v }, configurable: true, enumerable: true}); Object.defineProperty(halves, "r", {get: function(){ return this._w }, configurable: true}); Object.defineProperty(halves, "rw", {get: function(){ return 1 }, set: function(v){ this._rw = v }, configurable: true}); function HalfProto(){} Object.defineProperty(HalfProto.prototype, "pw", {set: function(v){ this._pw = v }, configurable: true}); var halfInst = new HalfProto(); var halvesRead = function(){ halves.w = 4; halfInst.pw = 6; return halves.r + ":" + halves._w + ":" + halfInst._pw };`,
+		`halves.w = "c"; halfInst.pw = "c"; Object.defineProperty(halves, "r", {get: function(){ return "copy" }}); halvesRead()`, `halves.w = "o"; halves.rw = "o"; halfInst.pw = "o"; halvesRead()`},
+	// rebinding the global names of built-in constructors (natives kept aside)
+	{`var NativeArray = Array, NativeTypeError = TypeError, NativeDate = Date; Array = function FakeArray(){ this.fake = true }; TypeError = function FakeTypeError(){}; Date = function FakeDate(){ this.fake = true }; var litKinds = function(){ var e; try { null.x } catch (x) { e = x } return ([] instanceof NativeArray) + ":" + ("a,b".split(",") instanceof NativeArray) + ":" + (e instanceof NativeTypeError) + ":" + (typeof new NativeDate(5).getTime) + ":" + (new Array().fake) };`,
+		`litKinds(); Array = NativeArray; litKinds()`, `litKinds(); TypeError = 5; litKinds()`},
+	{`var NativeObject = Object, NativeFunction = Function, NativeError = Error, NativeRegExp = RegExp, NativeString = String; Error = function FakeError(){}; RegExp = function FakeRegExp(){}; String = function FakeString(){ return "fake" }; var litKinds2 = function(){ return (/x/ instanceof NativeRegExp) + ":" + (typeof "a".length) + ":" + (new NativeError("m") instanceof NativeError) + ":" + ((function(){}) instanceof NativeFunction) + ":" + ({} instanceof NativeObject) };`,
+		`litKinds2(); RegExp = NativeRegExp; litKinds2()`, `litKinds2(); delete this.Error; litKinds2()`},
+	// key lists with spare capacity on functions, arrays, arguments, prototypes
+	{`function KL(){} KL.prototype.a = 1; KL.prototype.b = 2; KL.prototype.c = 3; var klArgs = (function(){ arguments.x = 1; arguments.y = 2; arguments.z = 3; return arguments })(1); var klArr = [1]; klArr.p = 1; klArr.q = 2; klArr.r = 3;`,
+		`KL.prototype.onCopy = 1; klArgs.onCopy = 1; klArr.onCopy = 1; KL.onCopy = 1; Object.keys(KL.prototype).concat(Object.keys(klArgs), Object.keys(klArr)).join()`, `KL.prototype.onOrig = 1; klArgs.onOrig = 1; klArr.onOrig = 1; KL.onOrig = 1; Object.keys(KL.prototype).concat(Object.keys(klArgs), Object.keys(klArr)).join()`},
+	// attributes and extensibility changed on one side only
+	{`var attrO = {x: 1, y: 2}; Object.defineProperty(attrO, "h", {value: 3, enumerable: false, writable: true, configurable: true}); var attrRead = function(){ return Object.keys(attrO).join() + ":" + Object.isFrozen(attrO) + ":" + Object.isExtensible(attrO) + ":" + JSON.stringify(Object.getOwnPropertyDescriptor(attrO, "h")) };`,
+		`Object.freeze(attrO); attrRead()`, `Object.defineProperty(attrO, "h", {enumerable: true, writable: false}); Object.preventExtensions(attrO); attrRead()`},
+	// closures over with/catch scopes, named function expressions, eval-declared bindings
+	{`var scopeFns = (function(){ var fs = {}; with ({wv: 1}) { fs.w = function(d){ wv += d; return wv } } try { throw {cv: 1} } catch (ce) { fs.c = function(d){ ce.cv += d; return ce.cv } } fs.n = function nfe(d){ nfe = d; return typeof nfe }; eval("var ev = 1"); fs.e = function(d){ ev += d; return ev }; return fs })(); var scopeRun = function(){ return scopeFns.w(1) + ":" + scopeFns.c(1) + ":" + scopeFns.n(1) + ":" + scopeFns.e(1) };`,
+		`scopeFns.w(10); scopeFns.c(10); scopeFns.e(10); scopeRun()`, `scopeFns.w(100); scopeFns.c(100); scopeFns.e(100); scopeRun()`},
+	// RegExp / Date / Error / wrapper internals changed on one side
+	{`var intRe = /ab+/g, intDate = new Date(1000), intErr = new RangeError("r"), intNum = new Number(5), intStr = new String("s"); intRe.exec("xabbb"); var intRead = function(){ return intRe.lastIndex + ":" + intRe.source + ":" + intDate.getTime() + ":" + intErr.message + ":" + intErr.name + ":" + (intNum + 1) + ":" + intStr.length };`,
+		`intRe.lastIndex = 0; intDate.setTime(5); intErr.message = "c"; intRead()`, `intRe.exec("abab"); intDate.setUTCFullYear(2001); intErr.name = "o"; intRead()`},
+	// bound functions: this, arguments and targets that are objects of the heap
+	{`var bThis = {n: 0}, bArg = {k: 0}, bTarget = function(a, b){ this.n++; a.k++; return this.n + ":" + a.k + ":" + b }; var bFn = bTarget.bind(bThis, bArg); var bFn2 = bFn.bind(null, "x"); bFn2();`,
+		`bFn2(); bThis.n = 50; bFn("c")`, `bArg.k = 70; bFn2(); bFn("o")`},
 }
 
 // RichSetup is every builder (with a fixed number) except those that remove or replace built-ins other
